@@ -58,6 +58,26 @@ class InjectedFault(Exception):
     """Raised at a fault site chosen by the fault plan (C03)."""
 
 
+NOVALUE = '<resume-without-value>'
+_RESUME_POOL = ('rv', 0, '', None, False, [], {}, NOVALUE, 'rv')
+
+
+def trace_resume(n_steps):
+    """Resume value for a wait reached after n_steps executed steps (a function of persisted state only, so it can be
+    replayed after a restore).  Cycles through truthy values, every falsy value and 'no value at all'."""
+    kind = _RESUME_POOL[n_steps % len(_RESUME_POOL)]
+    if kind == 'rv':
+        return ['rv', n_steps]
+    return kind if kind == NOVALUE else __import__('copy').deepcopy(kind)
+
+
+def apply_trace_resume(proc):
+    value = trace_resume(len(proc._trace))
+    if value == NOVALUE:
+        return proc.resume()
+    return proc.resume(value)
+
+
 def step_name(index):
     return 'run' if index == 0 else f'vstep{index}'
 
@@ -89,6 +109,7 @@ class World:
         self.futures = {}  # bare futures created by workchain steps, by id
         self.children = []  # child processes launched by steps
         self.exec_stack = []  # processes currently inside a nested child.execute() (innermost last)
+        self.parent_of = {}  # id(child process) -> the process whose step started it
         self.label_by_pid = False  # label unlabelled processes by their pid (launcher checks)
         self.instances = []  # every process instance that went through init() (constructed or loaded)
         self.child_by_index = {}
@@ -137,6 +158,18 @@ def _do_effect(proc, world, eff, plumpy):
                 raise exc
 
         proc.call_soon(callback)
+    elif kind == 'callsoon_parent':
+        # a child schedules a callback on the process that started it (the callback is the PARENT's code)
+        parent = world.parent_of.get(id(proc))
+        if parent is not None:
+            ident = eff['id']
+
+            def parent_callback(ident=ident, parent=parent):
+                world.rec('callback', label(parent), f'from-child:{ident}', plumpy.Process.current() is parent,
+                          parent.state.value)
+
+            parent.call_soon(parent_callback)
+            world.rec('scheduled_on_parent', label(proc), label(parent))
     elif kind in ('launch', 'execute'):
         child_cls = proc.__class__._children[eff['child']]
         world.child_serial = getattr(world, 'child_serial', 0) + 1
@@ -145,11 +178,13 @@ def _do_effect(proc, world, eff, plumpy):
             child = proc.launch(child_cls)
             child._sim_label = child_label
             world.children.append(child)
+            world.parent_of[id(child)] = proc
             world.rec('launched', label(proc), child_label, plumpy.Process.current() is proc)
         else:
             child = child_cls(loop=proc.loop)
             child._sim_label = child_label
             world.children.append(child)
+            world.parent_of[id(child)] = proc
             world.exec_stack.append(proc)
             try:
                 outputs = child.execute()
@@ -199,6 +234,8 @@ def _make_ret(proc, world, ret, plumpy):
     if kind == 'kill':
         from plumpy.process_comms import MessageBuilder
 
+        if ret.get('raw'):
+            return plumpy.Kill()  # the command without any message at all
         return plumpy.Kill(MessageBuilder.kill(ret.get('msg')))
     if kind == 'raise':
         exc = ProgramError(ret.get('msg', 'boom'))
@@ -394,7 +431,11 @@ def model_run(program, resume_values=None, max_steps=64):
             continue
         if kind == 'wait':
             if resume_values == 'trace':
-                value = ['rv', len(trace)]
+                value = trace_resume(len(trace))
+                if value == NOVALUE:
+                    waits += 1
+                    index, args, kwargs = ret['to'], [], {}
+                    continue
             else:
                 value = resume_values[waits] if resume_values is not None and waits < len(resume_values) else ['rv', waits, 0]
             waits += 1
@@ -487,6 +528,8 @@ def gen_process_program(rng, cfg=None):
                 ret = {'t': 'unsuccessful', 'v': rng.choice([1, 2, 400])}
             elif kind == 'kill':
                 ret = {'t': 'kill', 'msg': rng.choice([None, 'prog-kill'])}
+                if cfg.get('raw_kill') and rng.random() < 0.4:
+                    ret = {'t': 'kill', 'msg': None, 'raw': True}
             else:
                 ret = {'t': 'raise', 'msg': f'boom{index}'}
         steps.append({'async': is_async, 'awaits': awaits, 'effects': groups, 'ret': ret})
